@@ -1129,3 +1129,32 @@ func paramWritten(fn *ssa.Function, k int, depth int) bool {
 	paramWrittenCache[key] = res
 	return res
 }
+
+// freeToParams is the inverse of paramsToFree: terms of a closure expressed in the variables of the
+// enclosing function.
+func (t *Term) freeToParams() *Term {
+	if t == nil {
+		return nil
+	}
+	if t.K == TFree && strings.HasPrefix(t.Name, "free:") {
+		return mk(TParam, strings.TrimPrefix(t.Name, "free:"), t.Typ, t.Val)
+	}
+	if len(t.Sub) == 0 {
+		return t
+	}
+	changed := false
+	ns := make([]*Term, len(t.Sub))
+	for i, s := range t.Sub {
+		ns[i] = s.freeToParams()
+		if ns[i] != s {
+			changed = true
+		}
+	}
+	if !changed {
+		return t
+	}
+	c := *t
+	c.Sub = ns
+	c.s = c.render()
+	return &c
+}
